@@ -1468,3 +1468,9 @@ fn validate_will_properties(props: &Properties) -> Result<(), MqttError> {
 
     Ok(())
 }
+
+#[cfg(all(feature = "verif-hooks", kani))]
+#[allow(dead_code, unused)]
+pub(crate) mod verif_harness {
+    include!(concat!(env!("VERIF_HARNESS_DIR"), "/v5_connect_h.rs"));
+}
